@@ -48,21 +48,56 @@ CHECKS = {
             "sample2D: value, convexity, exactness on bilinear fields, insensitivity to masked nodes, undefined and outside substitutes (incl. 0.0 and NaN), ValueError without substitute. Grid: ll2xy(xy2ll(p)) must return, stay inside the array and meet the solver's stopping residual and the grid-unit bound it implies. End to end: particles released by lon/lat start where the interpolated coordinates match, and lon/lat in every record equal the bilinear interpolation at that record's X, Y.",
             "Sphere polar-stereographic grids 160 m..20 km, up to 60 (thorough 200) cells a side, not straddling +-180.",
             "DESIGN.md section 3 C16"),
+    "C08": ("fault_enumeration",
+            "Hypothesis-generated scenarios; every file boundary of the split run enumerated as a crash/restart point; differential uninterrupted vs restarted run, record by record",
+            "Generated simulations (continuous/discrete release, ageing IBM with lifetime, scripted kills, flow out of the grid, scalar forcing copied to the state, EF/RK2/RK4, particle variables, durations that are / are not multiples of the period) are run split with numrec 1..4; each completed file is used for a warm start configured as the documentation describes, and every later file of the restarted run is compared with the uninterrupted one (times, pid sets, all instance variables, particle variables, file names). Restart points are enumerated completely per scenario; scenarios are sampled.",
+            "Diffusion off; f8 forcing and output; tolerance 1e-9; a restarted run may end with one extra record (or an empty/extra file) at the stop time, which is not compared; 'active' is not output and hence not restartable, so no deactivation is scripted.",
+            "DESIGN.md section 3 C08"),
     "C09": ("exploration",
             "Hypothesis-generated masks, subgrids, flows and positions against a reference of kill / inactive / land-cancel (one step); per-step invariants over generated end-to-end histories observed through recording plug-ins",
             "One step of the real Tracker on the real Grid with a plug-in forcing that gives every particle its own strong constant velocity (so all schemes prescribe the same move) is compared with the reference outcome; generated simulations (stock forcing, diffusion on/off, all schemes) are observed after every step: the living are finite, inside the valid region and at sea, the dead never return nor appear in a later record, inactive particles keep X, Y.",
             "A candidate position exactly half-way between two cells may be attributed to either; with diffusion on only the invariants apply.",
             "DESIGN.md section 3 C09"),
+    "C10": ("exploration",
+            "Hypothesis-generated reversed simulations; metamorphic relation: reversed run == forward run on the time-mirrored, sign-flipped data, record by record; clock oracle S - k*dt",
+            "Each generated time-reversed simulation (several forcing files, irregular frame gaps incl. 1 step, several release times, discrete/continuous, EF/RK2/RK4, scripted kills, scalar forcing) is paired with a forward simulation whose frames are negated and mirrored in time and whose release times are mirrored; pids, positions and state must agree in every record, the reversed run's record times must read S - k*period*dt and each particle must first appear in the record of its stated release time.",
+            "f8 forcing/output; tolerance 1e-9 (the two runs interpolate in time from opposite ends).",
+            "DESIGN.md section 3 C10"),
     "C11": ("exploration",
             "Hypothesis-generated parameters and generator seeds; statistical oracle with explicit 6.5-sigma acceptance bands + exact metamorphic scaling relations under a shared seed",
             "Clouds of 1e4..1e5 (thorough 1e6) particles in still water on an open plug-in grid: mean, variance (= 2*D*t per unit), X-Y, X-Z, step-to-step and neighbour correlations per case; quadrupling D doubles and doubling dx halves every displacement under the same seed; D = Dz = 0 is bitwise deterministic.",
             "False-alarm probability ~8e-11 per statistical test; Tracker.rng is replaced by a seeded generator after construction.",
             "DESIGN.md section 3 C11"),
+    "C14": ("exploration",
+            "Hypothesis-generated base scenario + one generated variant (drop/add/permute rows, kill others, whole-step time shift, repeat); metamorphic relation: per-particle trajectories bit-identical up to renumbering",
+            "Base scenarios have depth- and position-dependent currents over variable bathymetry, land, scripted deaths by tag followed by output steps, lifetimes, late releases, scalar forcing, an ageing IBM, both layouts and split files; every release row carries a unique tag so that trajectories are matched after renumbering; all variables of every record must be bit-identical (f8).",
+            "mult = 1 for every row (unique tags); diffusion off.",
+            "DESIGN.md section 3 C14"),
     "C15": ("exploration",
             "Hypothesis-generated bathymetries, depths and vertical forcing against the validity predicate 0 <= Z' <= h(start cell); exact reflected value for advection-only cases",
             "The real Tracker on a plug-in grid with generated bathymetry (ratios up to 5000), start depths incl. exactly 0 and h, vertical diffusion and/or advection within the property's premise, all horizontal schemes with flow into other cells, 1-4 steps.",
             "Premise enforced with a 6.5-sigma margin on the random part; only particles starting inside [0, h] are judged.",
             "DESIGN.md section 3 C15"),
+    "C17": ("exploration",
+            "fuzzing-style instrumentation: generated scenario spaces re-run with NUMBA_BOUNDSCHECK=1 plus a Python index monitor around every compiled kernel call",
+            "Three generated families - the C02 sampling space, end-to-end histories with flow up to 4 m/s towards the open boundary (RK2/RK4, diffusion, subgrids, both layouts/directions) and a tracker-level boundary stress family (particles within 0.01 of the rim, displacements up to 3 cells, subgrids touching the full-grid edge, depths far outside the column, N = 1) - run with numba bounds checking forced on; the monitor recomputes the elements each trilinear / z2s / nearest call touches and also rejects negative indices, which numba wraps silently.",
+            "Positions are those the model produces from releases inside the valid region; establishes nothing beyond the positions explored.",
+            "DESIGN.md section 3 C17"),
+    "C18": ("exploration",
+            "Hypothesis-generated abstract simulations rendered in several spellings; differential between the output files of the YAML-v2, TOML-v2, YAML-v1 and defaulted-section runs",
+            "Abstract simulations inside the v1 vocabulary (forcing file or wildcard, optional grid file, subgrid, extra forcing, discrete/continuous release, extra release columns as particle variables, IBM module with parameters and variables, scheme, period spellings, reference time) are rendered as YAML v2, TOML v2 (native or string date-times), YAML v1 and a second v2 file with optional sections omitted vs present-but-empty and the grid section omitted / module-only; all four runs must complete and their output files agree in dimensions, variables, attributes and every value.",
+            "forcing.module is always spelled; empty sections are written as {}.",
+            "DESIGN.md section 3 C18"),
+    "C19": ("exploration",
+            "Hypothesis-generated run lengths, periods, plug-in spellings and cold/warm starts; call-log grammar + state snapshots from recording plug-ins in every module slot",
+            "A recording module (thin subclasses of the stock Grid, Forcing, ParticleReleaser, Tracker, Output and a scripted IBM) is installed in any subset of the six slots under a generated spelling (absolute path with/without .py, relative path, bare name in the working directory with a same-named decoy on sys.path, module name on sys.path); the update calls must follow release, forcing, output, tracker, ibm once per step (plus the output-less catch-up step of a warm start), snapshots taken inside the calls must be consistent with that order, kills take effect from the next record, close is called once per module, and the decoy never runs.",
+            "Recording classes log and delegate to the stock implementation.",
+            "DESIGN.md section 3 C19"),
+    "C20": ("fault_enumeration",
+            "enumeration of every fault kind x every base scenario (x drawn fault parameters); oracle: the run raises before Model.update is entered and leaves no output record",
+            "37 fault kinds (forcing not covering the window at either end, frames unsorted or duplicated within/across files, start/stop/dt absent/empty/null/zero, stop on the wrong side, releases all before/after/only at the stop time, no position columns, missing config/grid/forcing/release files, missing mandatory sections, six kinds of illegal subgrid) are injected one at a time into 16 base scenarios (forward/reversed x single/multi-file x discrete/continuous x grid section given/omitted); the unfaulted bases must run clean.",
+            "'stops with an error' = SystemExit or any exception; 'before the simulation starts' = Model.update never entered.",
+            "DESIGN.md section 3 C20"),
     "C12": ("exploration",
             "Hypothesis-generated vertical set-ups and depths checked against validity predicates (monotone, bounded, interleaved) and the clamped-interpolation identity",
             "s_stretch, sdepth, z2s and Grid.z_r/z_w (from file and from Vinfo) are evaluated on generated N, stretching parameters, transforms, hc, bathymetries and depths incl. exactly on levels and outside the range.",
